@@ -212,7 +212,9 @@ impl Axecutor {
                 let base = match i.memory_base() {
                     iced_x86::Register::None => None,
                     // If base is RIP, we can use the displacement as-it. No need to add it to the memory address
-                    iced_x86::Register::RIP => None,
+                    // The same goes for EIP (RIP-relative operand with the address-size prefix), where
+                    // the displacement already holds the address truncated to 32 bits
+                    iced_x86::Register::RIP | iced_x86::Register::EIP => None,
                     r => Some(SupportedRegister::from(r)),
                 };
                 let index = match i.memory_index() {
